@@ -2,6 +2,7 @@
 from ..rules import dtype_rules as D
 from ..rules import rep_rules as R
 from ..rules import cache_rules as CA
+from ..rules import sibling_rules as SI
 from ..rules.common import u1, n1
 
 COX = R.COX
@@ -23,6 +24,8 @@ def run(ctx):
         "bilinear_form", "cartan_representation", "geometric_representation",
         "canonical_representation", "cartan_matrix", "tits_vinberg_rep",
         "hyperbolic_rep", "automaton", "standard_subgroup"])
+    ctx.do(SI.rule_pa1)
+    ctx.do(SI.rule_inf1)
     ctx.do(u1, ENTRIES, min_functions=15)
     ctx.r.assume("involutions, braid relations, form preservation and "
                  "triangle angles are numerical and not decided")
